@@ -21,6 +21,12 @@ CLAIMED = {
  "C07": ("property-based testing against exact reference arithmetic (own parsers, i128, own civil-date code) over valid / boundary / near-miss constructor strings and boundary-biased operands", "5.7",
          "Constructor acceptance and values, every operation, and equality-by-value are compared with an independent exact implementation; values are additionally observed through cedar's own observers so a constructor bug cannot hide behind a printer bug.",
          "trusted: refmodel::ext (unit-tested on documented examples)"),
+ "C10": ("round-trip and differential property testing of entity/context JSON (to_json -> from_json with/without schema; implicit vs explicit escapes per position; reserved keys)", "5.10",
+         "Conformant stores over all value shapes are serialised and re-parsed with and without the schema and compared with deep_eq and per uid; the same data in randomly mixed implicit/explicit forms must parse to the same store; records with reserved-looking keys must be refused or round-trip.",
+         "trusted: harness JSON writers; Entities::deep_eq (cross-checked per uid)"),
+ "C11": ("single-fault mutation testing: conformant-by-construction data must be accepted, data with exactly one injected violation (20 kinds, any depth) must be rejected, through every schema-taking entry point", "5.11",
+         "Generated conformant stores/requests are accepted by all 11 entry points; each of 20 fault kinds is injected alone and every entry point documented to cover the faulted component must reject. Two listed findings (Context::from_json_value leaf validation) are reported as KNOWN-FINDING.",
+         "trusted: World-S conformance by construction, fault mutators, fault->entry point table from the API docs"),
  "C08": ("model-based stateful property testing of PolicySet edit histories with a substitution oracle for links", "5.8",
          "Operation histories (incl. merge with renaming) run against an id-map model with the documented error rules; all observers are compared after every step and authorization is compared with the textually substituted static set.",
          "trusted: id-map model; 5 ids, 8 texts, <=30 operations"),
